@@ -584,7 +584,9 @@ def run_programs(chk, cases_path, hdr, thorough, sd):
             raise C.Undecided("SPEC DEFECT: program output predicted from Embed.tla differs from the reference toolchain's: %s "
                               "(%d vs %d lines)" % (diff, len(so.splitlines()), len(expect)))
         exe = os.path.join(rd, "embedprog%d.llgo" % b)
-        ok, outp = C.llgo_build(mod, exe, rundir=rd)
+        # private llgo cache for this run: the per-tree cache is shared with every other check running on the same tree,
+        # and a package archive damaged there makes the program die at start-up (seen: any program importing "errors")
+        ok, outp = C.llgo_build(mod, exe, rundir=rd, extra_env={"XDG_CACHE_HOME": os.path.join(rd, "llgo-cache")})
         if not ok:
             chk.reject("prog:build", "llgo cannot build a program whose go:embed patterns the go command accepts: %s" % outp[-600:],
                        {"cases": [(c[0]["t"], c[1]) for c in cases], "output": outp[-3000:]})
